@@ -9,7 +9,11 @@
  *       becomes a linked-block element) / chunked (HMCcreate, with and without compressed chunks, unwritten chunks)
  *       elements, Hdupdd aliases, Hdeldd holes, Vdatas with vdata and field attributes, appendable Vdatas, nested
  *       Vgroups with attributes, annotations, GR images with palettes, SDS (fixed, unlimited, compressed, chunked,
- *       chunked+compressed, empty, with attributes and dimension scales), several sessions (close / reopen).
+ *       chunked+compressed, empty, with attributes and dimension scales), several sessions (close / reopen);
+ *       SD sessions on an existing file also modify what is there: records are appended to the unlimited data sets
+ *       (each its own number, with and without a gap, fill mode on / off), existing records and sub-boxes of fixed-size
+ *       data sets are overwritten - so that a file holds SEVERAL record variables of DIFFERENT record counts that grew
+ *       in different sessions; one case in four is an SD-heavy history (an SD session after every H session).
  * After every close the file is
  *   (a) dumped through the LIBRARY into the canonical text of lean/H4/Driver/Fmt.lean:
  *         DD lines: Hfind over all descriptors, Hstartread + Hinquire + HDget_special_info + Hread of the whole logical element
@@ -20,7 +24,11 @@
  *   (c) every raw-location query is repeated with info_count in {0 (NULL arrays), 1, n-1, n, n+1} into arrays that are
  *       followed by canary entries:  HDgetdatainfo, VSgetdatainfo, SDgetdatainfo, GRgetdatainfo, ANgetdatainfo.
  * Oracle keys:
- *   fmt-wf-<clause>          the reader rejects the file (clause = magic chain tag0 dup extent overlap special linked ext comp chunk vh vg xref version)
+ *   fmt-wf-<clause>          the reader rejects the file (clause = magic chain tag0 dup extent overlap special linked ext comp chunk vh vg xref version
+ *                            group; nt sdd id = the old-style descriptive records DFTAG_NT / DFTAG_SDD / DFTAG_ID / DFTAG_LD of the NDG / SDG / RIG
+ *                            groups and of the Var0.0 / RI0.0 Vgroups against the data elements they describe)
+ *   fmt-sdd-mismatch         rank / dimension sizes / number type of the DFTAG_SDD + DFTAG_NT records of a data set's NDG differ from SDgetinfo
+ *   fmt-id-mismatch          dimensions / components / number type of the DFTAG_ID + DFTAG_NT records of an image differ from GRgetiminfo
  *   fmt-content-mismatch     DD line differs (kind, raw extent, logical length or logical data)
  *   fmt-datainfo-mismatch    BLOCKS / CHUNK line differs, or an interface-level query differs from the element's block list
  *   fmt-datainfo-count       return value with 0 < info_count is not min(info_count, number of blocks)
@@ -158,6 +166,26 @@ static void objs_free(void)
     free(objs); objs = NULL; nobjs = 0;
 }
 
+/* the old-style description of an image (DFTAG_ID + DFTAG_NT, read with H calls only) against the GR interface's answers */
+static long n_desc;
+static void desc_image(int32 fid, int32 ri, ri_info_t *rp, int k)
+{
+    char nm[H4_MAX_GR_NAME + 1]; int32 nc, nt, il, dims[2], nat;
+    if (rp->img_dim.dim_ref == DFREF_WILDCARD || Hexist(fid, DFTAG_ID, rp->img_dim.dim_ref) == FAIL) return;
+    if (GRgetiminfo(ri, nm, &nc, &nt, &il, dims, &nat) == FAIL) { hk_fail("fmt-api", "GRgetiminfo(%d)", k); return; }
+    uint8 b[32], *p = b; int32 len = Hlength(fid, DFTAG_ID, rp->img_dim.dim_ref);
+    if (len != 20 || Hgetelement(fid, DFTAG_ID, rp->img_dim.dim_ref, b) == FAIL) { hk_fail("fmt-id-mismatch", "image %d (%s): DFTAG_ID/%u has %d bytes, not 20", k, nm, rp->img_dim.dim_ref, (int)len); return; }
+    int32 xd, yd; uint16 ntt, ntr; int16 ncomp, ilv;
+    INT32DECODE(p, xd); INT32DECODE(p, yd); UINT16DECODE(p, ntt); UINT16DECODE(p, ntr); INT16DECODE(p, ncomp); INT16DECODE(p, ilv);
+    n_desc++;
+    if (xd != dims[0] || yd != dims[1] || ncomp != nc)
+        hk_fail("fmt-id-mismatch", "image %d (%s): DFTAG_ID/%u says %d x %d pixels of %d components, GRgetiminfo %d x %d of %d", k, nm, rp->img_dim.dim_ref, (int)xd, (int)yd, (int)ncomp, (int)dims[0], (int)dims[1], (int)nc);
+    if (ntt != 0 && ntr != 0) { uint8 n4[4];
+        if (Hlength(fid, ntt, ntr) != 4 || Hgetelement(fid, ntt, ntr, n4) == FAIL) hk_fail("fmt-id-mismatch", "image %d (%s): number type %u/%u of DFTAG_ID/%u is not a 4-byte element", k, nm, ntt, ntr, rp->img_dim.dim_ref);
+        else if (n4[1] != (uint8)(nt & 0xff) || n4[2] != (uint8)(DFKNTsize(nt) * 8))
+            hk_fail("fmt-id-mismatch", "image %d (%s): number type record %u/%u says type %u width %u, GRgetiminfo type %d", k, nm, ntt, ntr, n4[1], n4[2], (int)nt); }
+}
+
 static int lib_dump(const char *path, lines_t *L)
 {
     int32 fid = Hopen(path, DFACC_READ, 0);
@@ -293,6 +321,7 @@ static int lib_dump(const char *path, lines_t *L)
               int32 ri = GRselect(gr, k); if (ri == FAIL) { hk_fail("fmt-api", "GRselect(%d)", (int)k); continue; }
               ri_info_t *rp = HAatom_object(ri);
               obj_t *ob = obj_find(rp->img_tag, rp->img_ref);
+              desc_image(fid, ri, rp, (int)k);
               if (ob && ob->special && ob->cbl) { GRendaccess(ri); continue; }   /* chunked image: GRgetdatainfo has no chunk argument */
               char what[96]; snprintf(what, sizeof what, "GRgetdatainfo(image %d = %u/%u)", (int)k, rp->img_tag, rp->img_ref);
               blist_t got, want; int n = query_all(q_gr, &ri, what, &got);
@@ -348,6 +377,32 @@ out:
     free(host); free(filed); free(raw);
 }
 
+/* the old-style description of a data set (its NDG: DFTAG_SDD + DFTAG_NT, read with H calls only) against SDgetinfo */
+static void desc_sds(int32 fid, int32 sds, NC_var *var, int k)
+{
+    char nm[H4_MAX_NC_NAME + 1]; int32 rank, dims[H4_MAX_VAR_DIMS], nt, nat;
+    if (var->ndg_ref == 0 || Hexist(fid, DFTAG_NDG, var->ndg_ref) == FAIL) return;
+    if (SDgetinfo(sds, nm, &rank, dims, &nt, &nat) == FAIL) { hk_fail("fmt-api", "SDgetinfo(%d)", k); return; }
+    int32 glen = Hlength(fid, DFTAG_NDG, var->ndg_ref); if (glen <= 0 || glen > 4000) return;
+    uint8 g[4000]; if (Hgetelement(fid, DFTAG_NDG, var->ndg_ref, g) == FAIL) { hk_fail("fmt-api", "Hgetelement(NDG %u)", var->ndg_ref); return; }
+    uint16 sddref = 0; for (int i = 0; i + 4 <= glen; i += 4) { uint8 *p = g + i; uint16 t, r; UINT16DECODE(p, t); UINT16DECODE(p, r); if (t == DFTAG_SDD) sddref = r; }
+    if (!sddref) return;
+    int32 len = Hlength(fid, DFTAG_SDD, sddref); uint8 *b = malloc((size_t)(len > 0 ? len : 1) + 8), *p = b;
+    if (len < 2 || Hgetelement(fid, DFTAG_SDD, sddref, b) == FAIL) { hk_fail("fmt-sdd-mismatch", "sds %d (%s): DFTAG_SDD/%u of NDG %u is not readable (%d bytes)", k, nm, sddref, var->ndg_ref, (int)len); free(b); return; }
+    uint16 frank; UINT16DECODE(p, frank);
+    n_desc++;
+    if (frank != rank || len != 2 + 4 * (int32)frank + 4 * ((int32)frank + 1)) hk_fail("fmt-sdd-mismatch", "sds %d (%s): DFTAG_SDD/%u has rank %u and %d bytes, SDgetinfo rank %d", k, nm, sddref, frank, (int)len, (int)rank);
+    else {
+        for (int d = 0; d < rank; d++) { int32 v; INT32DECODE(p, v);
+            if (v != dims[d]) hk_fail("fmt-sdd-mismatch", "sds %d (%s): dimension %d is %d in DFTAG_SDD/%u (NDG %u), %d through SDgetinfo", k, nm, d, (int)v, sddref, var->ndg_ref, (int)dims[d]); }
+        uint16 ntt, ntr; UINT16DECODE(p, ntt); UINT16DECODE(p, ntr); uint8 n4[4];
+        if (ntt != DFTAG_NT || Hlength(fid, ntt, ntr) != 4 || Hgetelement(fid, ntt, ntr, n4) == FAIL) hk_fail("fmt-sdd-mismatch", "sds %d (%s): number type %u/%u of DFTAG_SDD/%u is not a 4-byte DFTAG_NT", k, nm, ntt, ntr, sddref);
+        else if (n4[1] != (uint8)(nt & 0xff) || n4[2] != (uint8)(DFKNTsize(nt) * 8))
+            hk_fail("fmt-sdd-mismatch", "sds %d (%s): number type record %u/%u says type %u width %u, SDgetinfo type %d", k, nm, ntt, ntr, n4[1], n4[2], (int)nt);
+    }
+    free(b);
+}
+
 /* SD interface: raw locations of every data set (separate open: SDstart needs the path) */
 static void sd_queries(const char *path)
 {
@@ -362,6 +417,7 @@ static void sd_queries(const char *path)
         uint16 dtag = var->data_tag, dref = var->data_ref;
         obj_t *ob = dref ? obj_find(dtag, dref) : NULL;
         char what[128];
+        desc_sds(handle->hdf_file, sds, var, (int)k);
         if (ob && ob->cbl) {
             /* chunked: every chunk of the grid; unwritten chunks report 0 blocks */
             HDF_CHUNK_DEF cd; int32 fl = 0; SDgetchunkinfo(sds, &cd, &fl);
@@ -635,14 +691,48 @@ static void an_gr_ops(int32 fid)
 }
 
 static int name_ctr;
+/* an SD session changes what is already there: every unlimited data set gets its own number of new records (at the end, or
+   after a gap that the library fills), an existing record is overwritten, a sub-box of a fixed-size data set is overwritten */
+static void sd_modify(int32 sd)
+{
+    int32 nds = 0, nat = 0; if (SDfileinfo(sd, &nds, &nat) == FAIL) { api_fail++; return; }
+    for (int32 k = 0; k < nds; k++) {
+        int32 sds = SDselect(sd, k); if (sds == FAIL) { api_fail++; continue; }
+        char nm[H4_MAX_NC_NAME + 1]; int32 rank, dims[H4_MAX_VAR_DIMS], nt, na;
+        if (SDgetinfo(sds, nm, &rank, dims, &nt, &na) == FAIL || rank < 1 || rank > 3 || SDiscoordvar(sds)) { SDendaccess(sds); continue; }
+        int sz = DFKNTsize(nt); HDF_CHUNK_DEF cd; int32 cfl = 0; comp_coder_t ct = COMP_CODE_NONE; comp_info ci;
+        if (SDgetchunkinfo(sds, &cd, &cfl) == FAIL) cfl = HDF_NONE; if (SDgetcompinfo(sds, &ct, &ci) == FAIL) ct = COMP_CODE_NONE;
+        long rec = 1; for (int d = 1; d < rank; d++) rec *= dims[d];
+        if (SDisrecord(sds)) {
+            int what = (int)hk_range(0, 9);   /* 0-4 append, 5 append after a gap, 6-7 overwrite a record, 8-9 leave alone */
+            int32 s3[3] = {0, 0, 0}, c3[3] = {1, dims[1], dims[2]};
+            if (what <= 5) { s3[0] = dims[0] + (what == 5 ? (int32)hk_range(1, 2) : 0); c3[0] = (int32)hk_range(1, 4); }
+            else if (what <= 7 && dims[0] > 0) { s3[0] = (int32)hk_range(0, dims[0] - 1); c3[0] = 1; }
+            else { SDendaccess(sds); continue; }
+            if (rec * c3[0] * sz <= 60000) { fill_data((int)(rec * c3[0] * sz), (int)hk_range(0, 2)); CKF(SDwritedata(sds, s3, NULL, c3, dbuf)); hk_stat(what <= 5 ? "sds_rec_append" : "sds_rec_overwrite", 1); }
+        }
+        else if (cfl == HDF_NONE && ct == COMP_CODE_NONE && dims[0] > 0 && hk_chance(30)) {
+            /* a data set without data gets all of it (a first write away from the origin in a later session fails under SD_NOFILL:
+               known finding sd-valid-rejected:nofill-unsized of C03) */
+            int32 s2[3], c2[3]; long t2 = 1; int empty = 0; if (SDcheckempty(sds, &empty) == FAIL) empty = 1;
+            for (int d = 0; d < rank; d++) { s2[d] = empty ? 0 : (int32)hk_range(0, dims[d] - 1); c2[d] = empty ? dims[d] : (int32)hk_range(1, dims[d] - s2[d]); t2 *= c2[d]; }
+            if (t2 * sz <= 60000) { fill_data((int)(t2 * sz), 0); CKF(SDwritedata(sds, s2, NULL, c2, dbuf)); hk_stat(empty ? "sds_late_first_write" : "sds_overwrite", 1); }
+        }
+        CKF(SDendaccess(sds));
+    }
+}
+
 static void sd_ops(const char *path, int create)
 {
     int32 sd = SDstart(path, create ? DFACC_CREATE : DFACC_RDWR); if (sd == FAIL) { api_fail++; snprintf(first_fail, sizeof first_fail, "SDstart"); return; }
-    int nds = (int)hk_range(1, 4);
+    if (hk_chance(15)) CKF(SDsetfillmode(sd, SD_NOFILL));
+    if (!create && hk_chance(75)) sd_modify(sd);
+    int nds = (int)hk_range(create ? 1 : 0, 4);
     for (int i = 0; i < nds; i++) {
         int rank = (int)hk_range(1, 3); int32 dims[3], st[3] = {0, 0, 0}, ed[3]; long total = 1;
         static const int32 nts[] = {DFNT_INT8, DFNT_UINT8, DFNT_INT16, DFNT_INT32, DFNT_FLOAT32, DFNT_FLOAT64}; int32 nt = HK_PICK(nts); int sz = DFKNTsize(nt);
-        int mode = (int)hk_range(0, 9);   /* 0-2 plain, 3 unlimited, 4-5 compressed, 6-7 chunked, 8 chunked+comp, 9 empty */
+        int mode = (int)hk_range(0, 12);   /* 0-2 plain, 3 unlimited, 4-5 compressed, 6-7 chunked, 8 chunked+comp, 9 empty, 10-12 unlimited */
+        if (mode >= 10) mode = 3;
         for (int d = 0; d < rank; d++) { dims[d] = ed[d] = (int32)hk_range(1, 8); }
         if (mode == 3) { dims[0] = SD_UNLIMITED; ed[0] = (int32)hk_range(1, 6); }
         for (int d = 0; d < rank; d++) total *= ed[d];
@@ -680,7 +770,9 @@ static void random_case(int k)
     for (int i = 0; i < 8; i++) { snprintf(ext_name[i], sizeof ext_name[i], "%s", hk_tmp("")); snprintf(ext_name[i] + strlen(ext_name[i]), sizeof ext_name[i] - strlen(ext_name[i]), "r%d_ext%d.dat", k, i); unlink(ext_name[i]); }
     next_ref = 1; nplain = nvs = nvg = next_i = 0; api_fail = 0; first_fail[0] = 0; memset(pinned, 0, sizeof pinned); name_ctr = 0;
     static const int nd[] = {4, 5, 16}; int ndds = HK_PICK(nd);
-    int nsess = (int)hk_range(1, 3); int sd_first = hk_chance(15);
+    int sd_heavy = (k % 4 == 0);   /* an SD session first and after every H session: record variables grow session by session */
+    int nsess = (int)hk_range(sd_heavy ? 2 : 1, 3); int sd_first = sd_heavy || hk_chance(15);
+    if (sd_heavy) hk_stat("sd_heavy_cases", 1);
     hk_stat(ndds == 4 ? "ndds4" : ndds == 5 ? "ndds5" : "ndds16", 1);
     char label[64];
     if (sd_first) { sd_ops(path, 1); snprintf(label, sizeof label, "r%d.sd0", k); check_file(path, label); }
@@ -690,13 +782,13 @@ static void random_case(int k)
         int cache = hk_chance(50); CKF(Hcache(fid, cache)); hk_stat(cache ? "cache_on" : "cache_off", 1);
         /* keep the ref space of the random elements clear of what V/SD/GR hand out: use high refs */
         next_ref = (uint16)(1000 * (s + 1) + 1);
-        h_ops(fid, (int)hk_range(1, 10));
-        if (hk_chance(70)) v_ops(fid, (int)hk_range(1, 6));
+        h_ops(fid, (int)hk_range(1, sd_heavy ? 4 : 10));
+        if (hk_chance(sd_heavy ? 30 : 70)) v_ops(fid, (int)hk_range(1, 6));
         if (hk_chance(50)) h_ops(fid, (int)hk_range(1, 4));
         if (hk_chance(50)) an_gr_ops(fid);
         CKF(Hclose(fid));
         snprintf(label, sizeof label, "r%d.h%d", k, s); check_file(path, label);
-        if (hk_chance(35)) { sd_ops(path, 0); snprintf(label, sizeof label, "r%d.sd%d", k, s + 1); check_file(path, label); }
+        if (sd_heavy || hk_chance(35)) { sd_ops(path, 0); snprintf(label, sizeof label, "r%d.sd%d", k, s + 1); check_file(path, label); }
     }
     if (api_fail) { hk_fail("fmt-session-fails", "%d API calls failed while writing; first: %s", api_fail, first_fail); keep_files = 1; }
     hk_stat("random_cases", 1);
@@ -743,7 +835,7 @@ static void run_case(int k)
     else if (k == NWORKLOADS) probe_hnumber();
     else random_case(k);
     hk_stat("files", n_files); hk_stat("dd_lines", n_dd); hk_stat("special_lines", n_special); hk_stat("unknown_digests", n_unknown);
-    hk_stat("datainfo_queries", n_queries); hk_stat("sd_raw_compares", n_rawcmp); n_rawcmp = 0;
+    hk_stat("datainfo_queries", n_queries); hk_stat("sd_raw_compares", n_rawcmp); n_rawcmp = 0; hk_stat("desc_compares", n_desc); n_desc = 0;
     n_files = n_dd = n_special = n_unknown = n_queries = 0;
     if (keep_files && !getenv("HK_KEEP")) { /* keep the evidence of a failing case next to the temp dir */
         char cmd[1600]; snprintf(cmd, sizeof cmd, "mkdir -p '%s/../fmt-failed' && cp '%s'/*%d* '%s/../fmt-failed/' 2>/dev/null", hk_tmpdir, hk_tmpdir, k, hk_tmpdir); if (system(cmd)) {} }
